@@ -1239,13 +1239,12 @@ class SharedSpaceOperations:
             # False if name is a child of parent
             return not isinstance(parent._namespace.fresh[name], Impl)
 
-        sub = self._find_name_in_subs(parent, name, skip_self=True)   # start from parent
-        if sub is None:
-            return True
-        elif isinstance(sub, klass):
-            return True
-        else:
-            return False
+        # Every sub space that has the name must have it as a klass object
+        for subspace in self._get_subs(parent, skip_self=True):
+            if name in subspace.namespace:
+                if not isinstance(subspace._namespace.fresh[name], klass):
+                    return False
+        return True
 
     def _find_name_in_subs(self, parent, name, skip_self=False):
         for subspace in self._get_subs(parent, skip_self=skip_self):
